@@ -13,7 +13,7 @@ from lxml import etree
 from vf import lexical as lx
 from vf.xsdgen import HOSTILE_NAMES, PLAIN_NAMES, ClassNames
 
-LEAF_TYPES = ["str", "int", "bool", "float", "date", "time", "dateTime", "duration", "period"]
+LEAF_TYPES = ["str", "int", "bool", "float", "date", "time", "dateTime", "duration", "period", "code"]
 
 
 def leaf_value(rng, t):
@@ -21,6 +21,10 @@ def leaf_value(rng, t):
     if t == "str":
         # (strings that look like numbers, booleans or dates too: a repeated child may hold "12" next to "A7")
         return rng.choice(["alpha", "two words", "q&a", "é", "a<b", "x-1", "Hello World", "n/a", "12", "A7", "true", "1.5", "2020-01-01", "7"])
+    if t == "code":
+        # strings (product codes, dial prefixes ...) that a number parser would accept but that are not the canonical
+        # spelling of that number: they are strings, and canonically spelled ones
+        return rng.choice(["007", "012", "+5", "1e2", ".5", "00", "1.", "1_000", "0x10", "+1.50"])
     if t == "int":
         return str(rng.choice([0, 1, -1, 7, 42, 65536, -128, 2**40, 10**20]))
     if t == "bool":
@@ -58,6 +62,7 @@ class SNode:
     mixed: bool = False
     nillable: bool = False
     leaf_attrs: bool = False
+    empty_arrays: list = field(default_factory=list)  # JSON: keys that hold [] wherever they occur
 
 
 class HiddenModel:
@@ -218,6 +223,8 @@ class HiddenModel:
                 out[ch.name] = self.jbuild(ch, full)
             elif rng.random() < 0.5:
                 out[ch.name] = None
+        for nm in n.empty_arrays:
+            out[nm] = []  # (always present, like every other array: a list field is written even when empty, so an absent key would come back as [])
         return out
 
 
@@ -229,6 +236,8 @@ def jleaf(rng, t):
         return v == "true"
     if t == "float":
         return float(v)
+    if t == "code":
+        return "c" + v
     if t == "str" and (v in ("true", "false") or v.replace(".", "", 1).isdigit()):
         return "w" + v  # in JSON a number or boolean is spelled as such; a string that only looks like one is not canonical
     return v
@@ -253,6 +262,15 @@ def regular_json(rng, salt, n_samples=None):
     m.used = set()
     m.class_names = ClassNames()
     m.root = m.node(0, None, force_container=True)
+    def add_empty_arrays(n):  # an array that is empty in every sample is still an array
+        if n.kind != "leaf":
+            taken = {a[0] for a in n.attrs} | {c.name for c, _, _ in n.children}
+            if rng.random() < 0.2:
+                n.empty_arrays = [x for x in rng.sample(["tags", "extras", "none_yet"], rng.choice([1, 1, 2])) if x not in taken]
+            for c, _, _ in n.children:
+                add_empty_arrays(c)
+
+    add_empty_arrays(m.root)
     k = n_samples or rng.randrange(1, 4)
     r = rng.random()
     full_at = 0 if r < 0.3 else rng.randrange(k)
